@@ -11,7 +11,8 @@ CLAIMS = {
         "Every pre-computed length function of the binary writer (uintLen, intLen, varUintLen, varIntLen, tagLen) is proved equal, for all "
         "64-bit inputs, to a closed-form specification function taken from the Ion binary spec, and every append function is proved to "
         "append exactly that many bytes, each equal to the specified byte, leaving the earlier bytes untouched; loops are completely "
-        "unrolled with the unwinding assertion as an obligation; no-panic obligations for the same functions.",
+        "unrolled with the unwinding assertion as an obligation; no-panic obligations for the same functions. Solver counterexamples are "
+        "replayed on the real functions (go test -overlay) and the failed clause is evaluated on the real result.",
         "Decides the 'declared length equals bytes occupied' mechanism per function. Not decided: composition through the writer state "
         "machine and buffer tree, text output, symbol-table emission; no independent decoder exists in this family - 'equals the "
         "specification function' stands in for it. Trusted: go/ssa, solvers, 64-bit int, append modelled as always-fresh array.",
@@ -24,8 +25,9 @@ ALL = ["C%02d" % i for i in range(1, 21)]
 
 
 def main():
-    hooks_commits = subprocess.run(["git", "-C", "/repo", "log", "--format=%H %s"], capture_output=True, text=True).stdout.splitlines()
-    src = [l.split()[0] for l in hooks_commits if "verif hooks" in l]
+    # every commit of /repo that touches a hook file (oldest first)
+    src = subprocess.run(["git", "-C", "/repo", "log", "--reverse", "--format=%H", "--", "ion/zz_verif_contracts.go", "ion/zz_verif_spec.go",
+                          "cmd/ion-go/zz_verif_contracts.go"], capture_output=True, text=True).stdout.split()
     checks = []
     for pid in ALL:
         if pid not in CLAIMS:
@@ -36,7 +38,7 @@ def main():
             "quick_cmd": "./check.sh %s quick" % pid,
             "thorough_cmd": "./check.sh %s thorough" % pid,
             "evidence_file": "/verif/evidence/%s.json" % pid,
-            "replay_cmd_template": "cat {path}",
+            "replay_cmd_template": "cat {path}",  # the replay file carries the inputs, the real run's outcome and the solver output
             "engine": "ionvc",
             "level_claimed": {"category": "proof", "text": text, "design_ref": ref},
             "level_note": note,
